@@ -27,7 +27,7 @@ RULE = ("continuous and grid worlds, wrapping and not; 0-8 agents on a coarse la
         "; also: continuous extents in (0,1), rejected duplicate placements between queries, wrap_env reassigned, worlds that are not model.environment, model lifecycle ops, agents carrying own components incl. a PositionComponent subclass with another location, agents that are environments themselves, stretches of the history issued from inside a running timestep, grid worlds with agents on half-cell positions, infinite leeways")
 COMPONENTS = {"real": ["ECAgent.Environments.SpaceWorld.get_agents_at", "add_agent / move / move_to / remove_agent"],
               "stub": ["agents are plain ECAgent agents created by the harness"]}
-PROBES = ["earlier_answers_still_held", "integer_leeway_beyond_the_float_range", "axis_leeway_larger", "general_leeway_larger", "negative_leeway", "empty_answer", "coincident_agents",
+PROBES = ["agent_resting_beyond_the_walls_of_a_narrow_world", "earlier_answers_still_held", "integer_leeway_beyond_the_float_range", "axis_leeway_larger", "general_leeway_larger", "negative_leeway", "empty_answer", "coincident_agents",
           "query_outside_world", "seam_crossing_box", "agent_on_face", "wrap_world", "moved_since_placement", "rejected_duplicate_add", "model_lifecycle_op", "wrap_mode_switched", "agent_with_position_subclass_component", "agent_is_an_environment", "ops_from_inside_a_timestep",
           "grid_world_with_half_cell_positions", "infinite_leeway", "history_continued_on_a_copy", "leeways_left_to_their_defaults"]
 TECHNIQUE = "deterministic simulation: positional queries inside seeded move/remove histories vs an exact geometric filter (seam-aware in wrapping worlds)"
@@ -102,6 +102,13 @@ def generate(rng, tier):
         for _ in range(rng.randint(1, 2)):      # checkpoint / branch: the history continues on a deep copy (or pickle round trip)
             ops.insert(rng.randint(0, len(ops)), {"op": "branch", "how": rng.choice(["deepcopy", "deepcopy", "pickle"]), "k": 0})
     extras = gen_extras(rng, n, lambda ax: lattice(rng, ref, ax, 0))
+    if rng.random() < 0.3:
+        # absolute moves aimed beyond the walls: refused in most worlds, accepted on axes narrower than one unit (the package
+        # skips the range test there) - either way the queries that follow are about where the agents ARE
+        for o_ in ops:
+            if o_["op"] == "move_to" and rng.random() < 0.6:
+                o_["p"] = [lattice(rng, ref, ax, 0.5) for ax in range(3)]
+                o_["any"] = True
     return {"world": world, "n": n, "ops": ops, "extras": extras}
 
 
@@ -247,6 +254,16 @@ def execute(sc, ctx):
             moved.add(k)
         elif kind == "move_to":
             p = [int(c) for c in op["p"]]
+            if k in pos and op.get("any") and not ref.inside(p):
+                st_, _v = ctx.call(env.move_to, a, *ref.real(p))
+                if st_ == "ok":
+                    now_ = get_pos(a)
+                    if all(c == c and abs(c) < 1e9 and float(c * ref.den).is_integer() for c in now_):
+                        pos[k] = [int(c * ref.den) if ref.positive(ax) else pos[k][ax] for ax, c in enumerate(now_)]
+                        moved.add(k)
+                        if not ref.inside(pos[k]):
+                            ctx.probe("agent_resting_beyond_the_walls_of_a_narrow_world")
+                continue
             if k not in pos or not ref.inside(p):
                 continue
             ctx.expect_ok("move_to", env.move_to, a, *ref.real(p))
